@@ -675,6 +675,8 @@ static void gen(hx_plan_t *p, hx_rng_t *r)
         for (int j = 0; tab[j].op >= 0; j++) { if (x < tab[j].w) { op = tab[j].op; break; } x -= tab[j].w; }
         hx_add_op(p, t, op, hx_below(r, 1000), hx_below(r, 1000), hx_below(r, 4));
     }
+    /* drawn last so that the op stream of a seed does not depend on it */
+    hx_set_knob(p, "conc_sort", mode == M_LIST && T > 1 && hx_below(r, 100) < 40);
 }
 
 /* ------------------------------------------------------------------ run */
